@@ -1,0 +1,48 @@
+//go:build verif
+
+package round
+
+// Thin exported wrappers for the verification harness (/verif). No logic.
+
+// VerifMinerPerm returns a copy of the stored miner permutation (nil when not computed).
+func (r *Round) VerifMinerPerm() []int {
+	r.mutex.RLock()
+	defer r.mutex.RUnlock()
+	if r.minerPerm == nil {
+		return nil
+	}
+	return append([]int{}, r.minerPerm...)
+}
+
+// VerifComputeMinerRanks exposes computeMinerRanks.
+func VerifComputeMinerRanks(seed int64, minersNum int) []int {
+	return computeMinerRanks(seed, minersNum)
+}
+
+// VerifMutexFree reports whether the round mutex can be taken right now (TryLock + Unlock).
+func (r *Round) VerifMutexFree() bool {
+	if r.mutex.TryLock() {
+		r.mutex.Unlock()
+		return true
+	}
+	return false
+}
+
+// VerifFinalizingState reads the finalizing state without taking the mutex.
+func (r *Round) VerifFinalizingState() FinalizingState { return r.finalizingState }
+
+// VerifShareKeys lists the keys of the stored VRF shares without taking the mutex.
+func (r *Round) VerifShareKeys() []string {
+	keys := make([]string, 0, len(r.shares))
+	for k := range r.shares {
+		keys = append(keys, k)
+	}
+	return keys
+}
+
+// VerifTimeoutPerm returns a copy of timeoutCounter.perm.
+func (r *Round) VerifTimeoutPerm() []string {
+	r.timeoutCounter.mutex.Lock()
+	defer r.timeoutCounter.mutex.Unlock()
+	return append([]string{}, r.timeoutCounter.perm...)
+}
